@@ -288,6 +288,7 @@ func genC13(c *fw.Ctx) {
 		}
 	}
 	rec(maxSel)
+	genC13Tree(c)
 	if docTap != nil {
 		return
 	}
@@ -382,4 +383,142 @@ func c13FaultDocs() []c13fv {
 		{"declared-twice-prefix-and-longer", "JSIGHT 0.3\nGET /a/{id}\n  Path\n    {\n      \"id\": 1\n    }\n  200 any\nGET /a/{id}/b\n  Path\n    {\n      \"id\": 2\n    }\n  200 any\n"},
 	}
 	return faults
+}
+
+// genC13Tree: a tree of paths with two branches below one parameter - /a/{id}, /a/{id}/b/{n},
+// /a/{id}/c/{m} and one static segment below each branch - as path-bearing methods: ALL ordered
+// selections of 3..4 (thorough 5) of the five paths x for every parameter prefix, which of the
+// selected interactions declares it (or none). Every interaction lists exactly the declared
+// parameters of its own prefixes, in path order, each with the declared value.
+func genC13Tree(c *fw.Ctx) {
+	opt := drv.Options{FixedSeed: true}
+	paths := []string{"/a/{id}", "/a/{id}/b/{n}", "/a/{id}/c/{m}", "/a/{id}/b/{n}/x", "/a/{id}/c/{m}/y"}
+	methods := []string{"GET", "POST", "PUT", "PATCH", "DELETE"}
+	value := map[string]string{"id": "1", "n": "\"s\"", "m": "true"}
+	scalar := map[string]string{"id": "1", "n": "s", "m": "true"}
+	params := []string{"id", "n", "m"}
+	maxSel := 4
+	if !c.Quick() {
+		maxSel = 5
+	}
+	var sel []int
+	run := func() {
+		// which selected interactions may declare which parameter
+		holders := map[string][]int{}
+		for si, pi := range sel {
+			pp, _ := refPathParams(paths[pi])
+			for _, p := range pp {
+				holders[p.name] = append(holders[p.name], si)
+			}
+		}
+		var assign func(k int, decl map[string]int)
+		assign = func(k int, decl map[string]int) {
+			if k == len(params) {
+				if !c.Next() {
+					return
+				}
+				c.Count("evaluations", 1)
+				nodes := []*doc.Node{doc.Jsight()}
+				for si, pi := range sel {
+					m := doc.N(methods[si], paths[pi]).WithKids(doc.N("200", "any"))
+					var props []string
+					pp, _ := refPathParams(paths[pi])
+					for _, p := range pp {
+						if d, ok := decl[p.name]; ok && d == si {
+							props = append(props, fmt.Sprintf("\"%s\": %s", p.name, value[p.name]))
+						}
+					}
+					if len(props) > 0 {
+						m.Kids = append([]*doc.Node{doc.N("Path").WithBody("{" + strings.Join(props, ", ") + "}")}, m.Kids...)
+					}
+					m.Paren = true
+					nodes = append(nodes, m)
+				}
+				text := doc.Text(nodes)
+				label := fmt.Sprintf("tree sel=%v declared-by=%v", sel, decl)
+				c.Describe(label)
+				if len(decl) > 0 {
+					c.Distinct(text)
+				}
+				o := drv.RunMem("root.jst", text, opt)
+				if docTap != nil {
+					docTap(label, text, o)
+					return
+				}
+				if o.Crashed() {
+					c.Count("skipped_crash", 1)
+					return
+				}
+				if !o.OK() {
+					c.Violate("valid-paths-rejected", "C13:tree-rejected:"+firstWordsN(o.Msg, 4), label+": "+o.Short(), map[string]interface{}{"text": text})
+					return
+				}
+				cat, _, err := jsonx.Parse([]byte(o.JSON))
+				if err != nil {
+					return
+				}
+				in := cat.Get("interactions")
+				for si, pi := range sel {
+					id := "http " + methods[si] + " " + paths[pi]
+					e := in.Get(id)
+					if e == nil {
+						c.Violate("interaction-missing", "C13:interaction-missing", label+": no interaction "+id, map[string]interface{}{"text": text})
+						return
+					}
+					var want, got []string
+					pp, _ := refPathParams(paths[pi])
+					for _, p := range pp {
+						if _, ok := decl[p.name]; ok {
+							want = append(want, p.name+"="+scalar[p.name])
+						}
+					}
+					pv := e.Get("pathVariables")
+					if pv != nil {
+						if ch := pv.Path("schema", "content", "children"); ch != nil {
+							for _, x := range ch.A {
+								got = append(got, x.Get("key").Str()+"="+x.Get("scalarValue").Str())
+							}
+						}
+					}
+					if strings.Join(got, ",") != strings.Join(want, ",") || (len(want) == 0 && pv != nil) {
+						c.Violate("path-variables", "C13:tree-binding:"+bindClass(got, want), fmt.Sprintf("%s: interaction %s has pathVariables %v, reference binding %v", label, id, got, want), map[string]interface{}{"text": text})
+						return
+					}
+				}
+				return
+			}
+			name := params[k]
+			assign(k+1, decl) // nobody declares it
+			for _, si := range holders[name] {
+				decl[name] = si
+				assign(k+1, decl)
+				delete(decl, name)
+			}
+		}
+		assign(0, map[string]int{})
+	}
+	var rec func()
+	rec = func() {
+		if len(sel) >= 3 {
+			run()
+		}
+		if len(sel) == maxSel || c.Expired() {
+			return
+		}
+		for pi := range paths {
+			used := false
+			for _, x := range sel {
+				if x == pi {
+					used = true
+				}
+			}
+			if used {
+				continue
+			}
+			sel = append(sel, pi)
+			rec()
+			sel = sel[:len(sel)-1]
+		}
+	}
+	rec()
 }
